@@ -38,7 +38,7 @@ def cases(tier, seed):
     for n in range(1, nmax + 1):
         for k in range(1, n + 1):
             yield {"t": "paa", "n": n, "k": k, "ni": 1 + (n + k) % 3, "nc": 1 + (n * k) % 2, "values": "random" if (n + k) % 2 else "id", "dseed": n * 100 + k}
-    reps = 350 if tier == "quick" else 8000
+    reps = 350 if tier == "quick" else 24000
     for r in range(reps):
         for kind in KINDS:
             ni = int(rng.integers(1, 9))
